@@ -50,3 +50,23 @@ impl Debug for WTinyLFUError {
 
 #[cfg(feature = "std")]
 impl std::error::Error for WTinyLFUError {}
+
+// ---------------------------------------------------------------------------------------------
+// verification hooks (feature `verif-hooks`): the error type is not nameable from outside the
+// crate, so expose (variant index, payload) for checks.
+#[cfg(feature = "verif-hooks")]
+#[doc(hidden)]
+impl WTinyLFUError {
+    /// (0, width) | (1, samples) | (2, window) | (3, probationary) | (4, protected) | (5, ratio) | (6, -)
+    pub fn verif_code(&self) -> (u8, f64) {
+        match self {
+            WTinyLFUError::InvalidCountMinWidth(v) => (0, *v as f64),
+            WTinyLFUError::InvalidSamples(v) => (1, *v as f64),
+            WTinyLFUError::InvalidWindowCacheSize(v) => (2, *v as f64),
+            WTinyLFUError::InvalidProbationaryCacheSize(v) => (3, *v as f64),
+            WTinyLFUError::InvalidProtectedCacheSize(v) => (4, *v as f64),
+            WTinyLFUError::InvalidFalsePositiveRatio(v) => (5, *v),
+            WTinyLFUError::Unknown => (6, 0.0),
+        }
+    }
+}
